@@ -88,12 +88,29 @@ type Case struct {
 	Trusted   bool      `json:"trusted"`
 	Identity  string    `json:"identity"`
 	Plugin    bool      `json:"plugin"`
-	Entry     string    `json:"entry"` // verifier.Verify verifier.VerifyBlob notation.Verify notation.VerifyBlob
-	Scheme    string    `json:"scheme"`
+	// PluginKind: "" answers success; "nil-response" returns neither a response nor an error; "panics"
+	// panics. Whatever a plugin does, it cannot turn a wrong signature into a success (a verification
+	// that crashes is not a success either, and is not this property's subject)
+	PluginKind string `json:"pluginKind,omitempty"`
+	Entry      string `json:"entry"` // verifier.Verify verifier.VerifyBlob notation.Verify notation.VerifyBlob
+	Scheme     string `json:"scheme"`
 	// Decoys are other signatures the repository lists BEFORE the case's envelope (notation.Verify
 	// only): valid signatures of the same signer that lack part of the required metadata or are
 	// for another artifact. Whatever verifies first is judged.
 	Decoys [][]byte `json:"decoys,omitempty"`
+}
+
+// oddPlugin is a verification plugin that misbehaves when asked to verify.
+type oddPlugin struct {
+	*mocks.Plugin
+	kind string
+}
+
+func (o oddPlugin) VerifySignature(ctx context.Context, req *pf.VerifySignatureRequest) (*pf.VerifySignatureResponse, error) {
+	if o.kind == "panics" {
+		panic("scripted plugin panic")
+	}
+	return nil, nil
 }
 
 // ---- signers ----
@@ -344,7 +361,7 @@ type result struct {
 	outcome *notation.VerificationOutcome
 }
 
-func execute(c *Case, s *signer) (*result, error) {
+func execute(c *Case, s *signer) (resOut *result, errOut error) {
 	storeType := "ca"
 	if c.Scheme == envb.SchemeSA {
 		storeType = "signingAuthority"
@@ -364,8 +381,12 @@ func execute(c *Case, s *signer) (*result, error) {
 		opts.BlobTrustPolicy = kit.BlobDoc("", sv, []string{storeType + ":x"}, ids)
 	}
 	if c.Plugin {
-		opts.PluginManager = &mocks.Manager{Plugins: map[string]pf.Plugin{"c01-plugin": &mocks.Plugin{Name: "c01-plugin", Version: "1.0.0",
-			Capabilities: []pf.Capability{pf.CapabilityTrustedIdentityVerifier, pf.CapabilityRevocationCheckVerifier}}}}
+		var plug pf.Plugin = &mocks.Plugin{Name: "c01-plugin", Version: "1.0.0",
+			Capabilities: []pf.Capability{pf.CapabilityTrustedIdentityVerifier, pf.CapabilityRevocationCheckVerifier}}
+		if c.PluginKind != "" {
+			plug = oddPlugin{plug.(*mocks.Plugin), c.PluginKind}
+		}
+		opts.PluginManager = &mocks.Manager{Plugins: map[string]pf.Plugin{"c01-plugin": plug}}
 	}
 	v, err := verifier.NewVerifierWithOptions(ts, opts)
 	if err != nil {
@@ -374,6 +395,17 @@ func execute(c *Case, s *signer) (*result, error) {
 	ctx := context.Background()
 	p := c.Presented
 	res := &result{}
+	defer func() {
+		// a crash inside the library (e.g. on a plugin that answers with nothing) is not a success;
+		// crashes are C12's subject, successes are this property's
+		if r := recover(); r != nil {
+			if c.PluginKind == "" {
+				panic(r)
+			}
+			res.success, res.err, res.outcome = false, fmt.Errorf("library panicked: %v", r), nil
+			resOut, errOut = res, nil
+		}
+	}()
 	required := func() map[string]string { // the library gets its own copy: the oracle judges against the pristine map
 		if p.Required == nil {
 			return nil
@@ -490,11 +522,12 @@ func TestC01_Bound(t *testing.T) {
 	rec := stats.New(t, "C01", rule)
 	rp.Check(t, 24000, 2000000, func(rt *rapid.T) {
 		c := &Case{Format: rp.Pick(rt, "format", envb.MTJWS, envb.MTCOSE),
-			KeySpec:  rp.Pick(rt, "keySpec", "EC-256", "EC-256", "EC-256", "EC-384", "EC-384", "EC-521", "RSA-2048", "RSA-3072"),
-			Level:    kit.DrawLevel(rt),
-			Trusted:  rapid.IntRange(0, 3).Draw(rt, "trusted") != 0,
-			Identity: rp.Pick(rt, "identity", "wildcard", "wildcard", "pinned", "pinned-other"),
-			Plugin:   rapid.IntRange(0, 4).Draw(rt, "plugin") == 0,
+			KeySpec:    rp.Pick(rt, "keySpec", "EC-256", "EC-256", "EC-256", "EC-384", "EC-384", "EC-521", "RSA-2048", "RSA-3072"),
+			Level:      kit.DrawLevel(rt),
+			Trusted:    rapid.IntRange(0, 3).Draw(rt, "trusted") != 0,
+			Identity:   rp.Pick(rt, "identity", "wildcard", "wildcard", "pinned", "pinned-other"),
+			Plugin:     rapid.IntRange(0, 3).Draw(rt, "plugin") == 0,
+			PluginKind: rp.Pick(rt, "pluginKind", "", "", "", "nil-response", "panics"),
 		}
 		c.Scheme = rp.Pick(rt, "scheme", envb.SchemeX509, envb.SchemeX509, envb.SchemeSA)
 		caseScheme = c.Scheme
@@ -529,6 +562,9 @@ func TestC01_Bound(t *testing.T) {
 					c.Presented.Required[k] = ann[k]
 				}
 			}
+		}
+		if !c.Plugin {
+			c.PluginKind = ""
 		}
 		c.Source = rp.Pick(rt, "source", "fresh", "fresh", "descriptor-nearmiss", "descriptor-nearmiss", "metadata-nearmiss", "metadata-nearmiss", "reassembled", "reassembled", "wrong-payload-type", "bytemutated", "bytemutated")
 		descNearMiss := func() {
@@ -567,7 +603,8 @@ func TestC01_Bound(t *testing.T) {
 			case "drop-byte":
 				p.Blob, c.Detail = append([]byte{}, p.Blob[:len(p.Blob)-1]...), c.Detail+"drop-byte;"
 			case "content-type":
-				p.MediaType, c.Detail = "text/plain", c.Detail+"content-type;"
+				// another type, or the signed type with a parameter the signed one does not have
+				p.MediaType, c.Detail = rp.Pick(rt, "statedType", "text/plain", p.MediaType+"; charset=utf-16", p.MediaType+";v=2"), c.Detail+"content-type;"
 			case "other-blob-same-size":
 				p.Blob, c.Detail = append([]byte{}, other.blob...), c.Detail+"other-blob;"
 			}
@@ -699,6 +736,9 @@ func TestC01_Bound(t *testing.T) {
 		if c.Plugin {
 			cl = append(cl, "with-plugin")
 		}
+		if c.PluginKind != "" {
+			cl = append(cl, "plugin-misbehaves="+c.PluginKind)
+		}
 		if !c.Trusted {
 			cl = append(cl, "untrusted-root")
 		}
@@ -726,7 +766,7 @@ func TestC01_Bound(t *testing.T) {
 		if c.Source == "fresh" && c.Trusted && c.Identity != "pinned-other" && !res.success && !plainReader {
 			cl = append(cl, "fresh-rejected-with-unusual-reader") // completeness is C07's subject; here it is only counted
 		}
-		if c.Source == "fresh" && c.Trusted && c.Identity != "pinned-other" && !res.success && plainReader {
+		if c.Source == "fresh" && c.Trusted && c.Identity != "pinned-other" && !res.success && plainReader && c.PluginKind == "" {
 			// cross-validation of the harness's builders: a fresh, trusted envelope must verify
 			rt.Fatalf("harness: fresh envelope rejected under %s: %v", c.Level.String(), res.err)
 		}
